@@ -416,21 +416,29 @@ def run(tier):
     r = consts(Modes={"reopen", "ro"}, MaxLen=30, MaxMut=99, MaxTxn=99)
     lg = consts(Modes={"legacy", "reopen"}, MaxLen=30, MaxMut=99, MaxTxn=99,
                 OpTaskArgs={"u1", "u2", "u3"})
+    # 2b. the operation log on its own: every operation shape incl. deletes with one- and
+    #     two-property old tasks, added / removed / synced in every order
+    go = consts(MaxLen=5 if thorough else 4, MaxMut=99, MaxTxn=99, TaskArgs={"u1"},
+                OpTaskArgs={"u1"}, MapSel="all",
+                Kinds={"AddOperation", "RemoveOperation", "SyncComplete", "UnsyncedOperations"})
+    f_o = ex.submit(gen, wd, "gen-all-sequences-oplog", go, None, None, 1200)
     f_a = ex.submit(gen, wd, "gen-all-sequences-45-shapes", ga, None, None, 1200)
     f_b = ex.submit(gen, wd, "gen-all-sequences-21-mutators", gb, None, None, 1200)
     f_s = ex.submit(gen, wd, "gen-sim-depth40", s, 2500 if thorough else 300, 41, 900)
     f_r = ex.submit(gen, wd, "gen-sim-readonly", r, 2000 if thorough else 250, 31)
     f_l = ex.submit(gen, wd, "gen-sim-legacy", lg, 2000 if thorough else 250, 31) if cli else None
     sa, sb, sim, ros = f_a.result(), f_b.result(), f_s.result(), f_r.result()
+    so = f_o.result()
     ros = [h for h in ros if any(x["a"] == "Reopen" and x["v"] == "ro" for x in h)]
     leg = [h for h in f_l.result() if any(x["a"] == "Legacy" for x in h)] if cli else []
     for f in f_mc:
         f.result()
-    v.distinct += len(sa) + len(sb) + len(sim) + len(ros) + len(leg)
+    v.distinct += len(sa) + len(sb) + len(sim) + len(ros) + len(leg) + len(so)
 
     # ---- the sequences on the real backends
     jobs = [ex.submit(run_.pair, "seqB", gb, sb, "ascii", 20000 if thorough else 2000),
-            ex.submit(run_.pair, "seqA", ga, sa, "ascii", 20000)]
+            ex.submit(run_.pair, "seqA", ga, sa, "ascii", 20000),
+            ex.submit(run_.pair, "seqO", go, so, "ascii", 20000)]
     f_sim = ex.submit(run_.pair, "sim", s, sim)
     for vc in ("unicode", "edge"):
         jobs.append(ex.submit(run_.pair, f"sim-{vc}", s, sim[:1500] if thorough else sim[:100], vc))
